@@ -31,7 +31,9 @@ LEVEL_TEXT = ("Partial (tables only): the keyword, parent, routing and attribute
               "compared with the transcribed reference tables, for all block types at once; a dropped parent arm, a misrouted block type, a misspelt attribute key or a "
               "changed legacy default is reported. The lexical layer (tokenising, comments, CRLF, multi-line values) is NOT decided by this family.")
 LEVEL_NOTE = "Trusted: rustc MIR; the transcribed tables in ctecheck/spec/bdl_schema.py."
-TECHNIQUE = "decision-table and string-table extraction from MIR compared with transcribed reference tables"
+TECHNIQUE = ("decision-table and string-table extraction from MIR compared with transcribed reference tables; value provenance through loops and helpers "
+             "(catalogue merge); dominance (count test before record parse) and must-pass-through (ABSORPTANCE on every loop path) queries on the CFG; decision walk "
+             "of the default tilt over all (type, LOCATION) cells")
 FIXTURE_EXPECT = ["c18.parent"]
 
 PARENT_SPEC = {
